@@ -20,7 +20,7 @@ static void fm(Flat &f, const char *n, const matrix *m) { std::vector<double> x{
 static void ft(Flat &f, const char *n, const tensor *t) { std::vector<double> x{(double)t->order}; for (size_t k = 0; k < t->order; k++) { x.push_back((double)t->m[k]->row); x.push_back((double)t->m[k]->col); for (size_t i = 0; i < t->m[k]->row; i++) for (size_t j = 0; j < t->m[k]->col; j++) x.push_back(t->m[k]->data[i][j]); } f.push_back({n, x}); }
 static void fl(Flat &f, const char *n, const dvectorlist *l) { std::vector<double> x{(double)l->size}; for (size_t k = 0; k < l->size; k++) { x.push_back((double)l->d[k]->size); for (size_t i = 0; i < l->d[k]->size; i++) x.push_back(l->d[k]->data[i]); } f.push_back({n, x}); }
 
-static Flat flat_pca(const PCAMODEL *m) { Flat f; fv(f, "colaverage", m->colaverage); fv(f, "colscaling", m->colscaling); fv(f, "varexp", m->varexp); fm(f, "scores", m->scores); fm(f, "loadings", m->loadings); return f; }
+static Flat flat_pca(const PCAMODEL *m) { Flat f; fv(f, "colaverage", m->colaverage); fv(f, "colscaling", m->colscaling); fv(f, "varexp", m->varexp); fm(f, "scores", m->scores); fm(f, "loadings", m->loadings); fm(f, "dmodx", m->dmodx); return f; }   // every field of PCAMODEL (pca.h)
 static Flat flat_cpca(const CPCAMODEL *m) { Flat f; fv(f, "scaling_factor", m->scaling_factor); fv(f, "total_expvar", m->total_expvar); ft(f, "block_scores", m->block_scores); ft(f, "block_loadings", m->block_loadings);
   fm(f, "super_scores", m->super_scores); fm(f, "super_weights", m->super_weights); fl(f, "block_expvar", m->block_expvar); fl(f, "colaverage", m->colaverage); fl(f, "colscaling", m->colscaling); return f; }
 static Flat flat_pls(const PLSMODEL *m) { Flat f; fv(f, "xcolscaling", m->xcolscaling); fv(f, "xcolaverage", m->xcolaverage); fv(f, "ycolscaling", m->ycolscaling); fv(f, "ycolaverage", m->ycolaverage); fv(f, "xvarexp", m->xvarexp); fv(f, "b", m->b);
